@@ -1108,6 +1108,9 @@ pub struct ReadOnlyUntypedMultimapTable {
     fixed_key_size: Option<usize>,
     fixed_value_size: Option<usize>,
     mem: PageResolver,
+    // Keeps the read transaction registered for as long as this handle is alive, like the typed
+    // tables do: stats() walks pages of the transaction's snapshot
+    _transaction_guard: Arc<TransactionGuard>,
 }
 
 impl Sealed for ReadOnlyUntypedMultimapTable {}
@@ -1153,6 +1156,7 @@ impl ReadOnlyUntypedMultimapTable {
         fixed_key_size: Option<usize>,
         fixed_value_size: Option<usize>,
         mem: PageResolver,
+        guard: Arc<TransactionGuard>,
     ) -> Self {
         Self {
             name: name.to_string(),
@@ -1168,6 +1172,7 @@ impl ReadOnlyUntypedMultimapTable {
             fixed_key_size,
             fixed_value_size,
             mem,
+            _transaction_guard: guard,
         }
     }
 }
